@@ -138,7 +138,10 @@ def cmp_stats(obs, stat, uniq):
     out = []
     names = ["RCOUNT", "SNVDP", "DP", "RCALLS"]
     for i, nm in enumerate(names):
-        if obs["stat"][i] != stat[i]:
+        if nm == "DP":
+            if obs["stat"][i] not in stat[i]:  # the model gives the set of admissible roundings
+                out.append((nm, obs["stat"][i], stat[i]))
+        elif obs["stat"][i] != stat[i]:
             out.append((nm, obs["stat"][i], stat[i]))
     mu = model_uniq(uniq)
     if obs["bag"] != mu:
@@ -540,7 +543,7 @@ def cli(task):
                             rec["mismatch"].append(("sample-missing", sname, None))
                             continue
                         got = [int(col["RCOUNT"]), [int(x) for x in col["SNVDP"].split(",")], int(col["DP"]), int(col["RCALLS"])]
-                        if got != st:
+                        if got[:2] + got[3:] != st[:2] + st[3:] or got[2] not in st[2]:
                             rec["mismatch"].append(("FORMAT " + sname, got, st))
             out.append(rec)
     shutil.rmtree(wd, ignore_errors=True)
